@@ -5,16 +5,6 @@ From Coq Require Import List Arith Lia Bool ZArith NArith.
 From NV Require Import Bytes GenConsts ReSyntax ReParse ReEmit ReVM ReSem RsetDefs.
 Import ListNotations.
 
-(* the number of groups of a parse tree = what rnode_grpnum returns *)
-Fixpoint ngroups (t : node) : nat :=
-  match t with
-  | NNil => 0
-  | NAtom _ _ _ => 0
-  | NGrp x _ _ _ => 1 + ngroups x
-  | NCat x y => ngroups x + ngroups y
-  | NAlt x y => ngroups x + ngroups y
-  end.
-
 Lemma grpnum_ngroups t : forall num, snd (grpnum t num) = ngroups t.
 Proof.
   induction t; intros num; cbn [grpnum ngroups snd]; try reflexivity.
@@ -43,3 +33,118 @@ Lemma fixed_over :
     rset_make [Some p_over; Some p_y] 0%Z = Ok (Some rs) /\ rs_grp rs = [2%Z; 3%Z; 4%Z] /\
     fst (rset_find_d 300 rs [121; 10]%N 1 0%Z) = Ok (1%Z, [(0%Z, 1%Z)]).
 Proof. eexists. eexists. repeat split; vm_compute; reflexivity. Qed.
+
+(* ---- C10_rset_index for every pattern set that passes the executable check rset_shape -------------- *)
+Lemma ngroups_grpnum t : forall num, ngroups (fst (grpnum t num)) = ngroups t.
+Proof.
+  induction t; intros num; cbn [grpnum ngroups fst]; try reflexivity.
+  - specialize (IHt (num + 1)). destruct (grpnum t (num + 1)). cbn [fst ngroups] in *. lia.
+  - pose proof (grpnum_ngroups t1 num) as K. specialize (IHt1 num). destruct (grpnum t1 num) as [x' k1]. cbn [fst snd] in *.
+    specialize (IHt2 (num + k1)). destruct (grpnum t2 (num + k1)). cbn [fst ngroups] in *. lia.
+  - pose proof (grpnum_ngroups t1 num) as K. specialize (IHt1 num). destruct (grpnum t1 num) as [x' k1]. cbn [fst snd] in *.
+    specialize (IHt2 (num + k1)). destruct (grpnum t2 (num + k1)). cbn [fst ngroups] in *. lia.
+Qed.
+
+(* the group numbers rset_make assigns: the first non-NULL pattern gets num, the next one num + 1 + its own groups ... *)
+Fixpoint nums (num : nat) (ps : list bytes) : list nat :=
+  match ps with [] => [] | p :: r => num :: nums (num + 1 + re_groupcount p) r end.
+Fixpoint total (ps : list bytes) : nat :=
+  match ps with [] => 0 | p :: r => 1 + re_groupcount p + total r end.
+
+(* the alternation of wrapper groups as the compiled tree has it: alternative i is a group numbered g_i that sits
+   directly under the alternation, contains exactly re_groupcount p_i groups, and these are numbered g_i + 1 ... in
+   pre-order (x is the result of rnode_grpnum from g_i + 1) *)
+Inductive wraps : node -> list bytes -> list nat -> Prop :=
+| w_one x x0 g p : ngroups x = re_groupcount p -> x = fst (grpnum x0 (g + 1)) -> wraps (NGrp x g 1 1) [p] [g]
+| w_cons x x0 g p rest ps gs : ngroups x = re_groupcount p -> x = fst (grpnum x0 (g + 1)) -> ps <> [] ->
+    wraps rest ps gs -> wraps (NAlt (NGrp x g 1 1) rest) (p :: ps) (g :: gs).
+
+Lemma is_wrap_inv t p : is_wrap t p = true -> exists x g, t = NGrp x g 1 1 /\ ngroups x = re_groupcount p.
+Proof.
+  destruct t; cbn [is_wrap]; try discriminate. intro H.
+  apply andb_prop in H. destruct H as [H H3]. apply andb_prop in H. destruct H as [H1 H2].
+  apply Z.eqb_eq in H1. apply Z.eqb_eq in H2. apply Nat.eqb_eq in H3. subst. eauto.
+Qed.
+
+Lemma grpnum_wrap x g p num : ngroups x = re_groupcount p ->
+  exists x', grpnum (NGrp x g 1 1) num = (NGrp x' num 1 1, 1 + re_groupcount p) /\ ngroups x' = re_groupcount p /\ x' = fst (grpnum x (num + 1)).
+Proof.
+  intro H. cbn [grpnum]. pose proof (grpnum_ngroups x (num + 1)) as K. pose proof (ngroups_grpnum x (num + 1)) as K2.
+  destruct (grpnum x (num + 1)) as [x' k]. cbn [fst snd] in *. exists x'. subst k. rewrite H. split; [reflexivity|]. split; [congruence | reflexivity].
+Qed.
+
+Lemma grpnum_alt_eq a b num : grpnum (NAlt a b) num =
+  let '(a', k1) := grpnum a num in let '(b', k2) := grpnum b (num + k1) in (NAlt a' b', k1 + k2).
+Proof. reflexivity. Qed.
+
+Lemma grpnum_alts : forall ps body num, check_alts body ps = true ->
+  wraps (fst (grpnum body num)) ps (nums num ps) /\ snd (grpnum body num) = total ps.
+Proof.
+  induction ps as [|p ps IH]; intros body num H; [discriminate|].
+  cbn [check_alts] in H. destruct ps as [|p2 ps].
+  - apply is_wrap_inv in H. destruct H as (x & g & -> & Hx).
+    destruct (grpnum_wrap x g p num Hx) as (x' & E & N & X). rewrite E. cbn [fst snd nums total].
+    split; [econstructor; eauto | lia].
+  - destruct body; try discriminate. apply andb_prop in H. destruct H as [W C].
+    apply is_wrap_inv in W. destruct W as (x & g & -> & Hx).
+    destruct (grpnum_wrap x g p num Hx) as (x' & E & N & X).
+    specialize (IH body2 (num + (1 + re_groupcount p)) C). destruct IH as [IH1 IH2].
+    rewrite grpnum_alt_eq, E.
+    destruct (grpnum body2 (num + (1 + re_groupcount p))) as [r' k2]. cbv beta iota zeta. cbn [fst snd] in *.
+    cbn [nums total]. replace (num + 1 + re_groupcount p) with (num + (1 + re_groupcount p)) by lia.
+    cbn [nums total] in *. split; [|lia]. eapply w_cons; [exact N | exact X | discriminate | exact IH1].
+Qed.
+
+Definition nonneg (z : Z) : bool := (0 <=? z)%Z.
+Lemma build_nums : forall res sb gc sb' g sg gc', rset_build res sb gc = (sb', g, sg, gc') ->
+  map Z.to_nat (filter nonneg g) = nums gc (somes res) /\ gc' = gc + total (somes res) /\ length g = length res /\
+  map snd (filter (fun zs => nonneg (fst zs)) (combine g sg)) = map re_groupcount (somes res).
+Proof.
+  induction res as [|[p|] rest IH]; intros sb gc sb' g sg gc' H; cbn [rset_build] in H.
+  - inversion H; subst. cbn. repeat split; lia.
+  - set (sb1 := (if Nat.ltb 1 (length sb) then sb ++ [124%N] else sb) ++ [40%N] ++ p ++ [41%N]) in *.
+    destruct (rset_build rest sb1 (gc + 1 + re_groupcount p)) as [[[sb2 g2] sg2] gc2] eqn:E. inversion H; subst; clear H.
+    destruct (IH _ _ _ _ _ _ E) as (I1 & I2 & I3 & I4).
+    cbn [filter somes nums total length map combine fst snd]. replace (nonneg (Z.of_nat gc)) with true by (unfold nonneg; lia).
+    cbn [map fst snd]. rewrite I1, I4, Nat2Z.id. repeat split; try reflexivity; lia.
+  - destruct (rset_build rest sb gc) as [[[sb2 g2] sg2] gc2] eqn:E. inversion H; subst; clear H.
+    destruct (IH _ _ _ _ _ _ E) as (I1 & I2 & I3 & I4).
+    cbn [filter somes length combine fst snd]. replace (nonneg (-1)) with false by reflexivity. repeat split; auto; lia.
+Qed.
+
+(* C10_rset_index: for every pattern set that passes rset_shape and that rset_make accepts, the compiled tree is the
+   outer group 1 around the alternation of the wrapper groups, the wrapper of the i-th non-NULL pattern is numbered
+   grp[i], contains setgrpcnt[i] groups numbered grp[i]+1 ..., and grpcnt is one more than the last group number *)
+Theorem rset_index_full res flg rs : rset_shape res = true -> rset_make res flg = Ok (Some rs) ->
+  exists body, tree (rs_prog rs) = NGrp body 1 1 1 /\
+    wraps body (somes res) (map Z.to_nat (filter nonneg (firstn (rs_n rs) (rs_grp rs)))) /\
+    map snd (filter (fun zs => nonneg (fst zs)) (combine (firstn (rs_n rs) (rs_grp rs)) (rs_setgrpcnt rs))) = map re_groupcount (somes res) /\
+    rs_grpcnt rs = 1 + ngroups (tree (rs_prog rs)) /\ nth (rs_n rs) (rs_grp rs) 0%Z = Z.of_nat (rs_grpcnt rs).
+Proof.
+  unfold rset_shape, rset_make, rset_pattern. intros S M.
+  destruct (rset_build res [40%N] 2) as [[[sb g] sg] gc] eqn:B.
+  destruct (build_nums _ _ _ _ _ _ _ B) as (N1 & N2 & N3 & N4).
+  unfold regcomp in M. destruct (parse_pat (sb ++ [41%N])) as [[[t|] rest]| |] eqn:P; try discriminate.
+  destruct t; try discriminate. destruct rest; try discriminate.
+  apply andb_prop in S. destruct S as [S C]. apply andb_prop in S. destruct S as [S1 S2].
+  apply Z.eqb_eq in S1. apply Z.eqb_eq in S2. subst mn mx.
+  cbn [bind fst] in M.
+  destruct ((0 <=? NINST)%Z && (NINST <=? count (NGrp t g0 1 1) + 3)%Z); [discriminate|].
+  inversion M; subst rs; clear M. cbn [rs_prog rs_n rs_grp rs_setgrpcnt rs_grpcnt tree].
+  destruct (grpnum_alts (somes res) t 2 C) as [W T].
+  pose proof (ngroups_grpnum t 2) as K.
+  cbn [grpnum]. change (1 + 1) with 2. destruct (grpnum t 2) as [t' k] eqn:G. cbn [fst snd ngroups] in *.
+  replace (firstn (length res) (g ++ [Z.of_nat gc])) with g by (rewrite <- N3, firstn_app, Nat.sub_diag, firstn_all; cbn [firstn]; rewrite app_nil_r; reflexivity).
+  exists t'. split; [reflexivity|]. split; [rewrite N1; exact W|]. split; [exact N4|]. split.
+  - pose proof (grpnum_ngroups t 2) as K2. rewrite G in K2. cbn [snd] in K2. lia.
+  - rewrite <- N3, app_nth2, Nat.sub_diag; [reflexivity | lia].
+Qed.
+
+(* non-vacuity, and the deployed shape: sets of several patterns with groups, brackets containing parentheses, escapes *)
+Example rset_shape_examples :
+  rset_shape [Some p_under] = true /\ rset_shape [Some p_over; None; Some p_y] = true /\
+  rset_shape [Some [40; 97; 41; 124; 92; 40; 98]%N; Some [91; 93; 40; 93; 40; 40; 99; 41; 42; 41]%N] = true /\
+  (* truncated / unbalanced patterns are accepted by rset_make but do not pass the check *)
+  rset_shape [Some [40; 97; 41; 40; 98; 123; 51; 44; 49; 125; 41]%N; Some [99]%N] = false /\
+  rset_shape [Some [97; 41; 40; 98]%N] = false.
+Proof. vm_compute. repeat split. Qed.
